@@ -233,6 +233,35 @@ def make_config(ck, rng, nmax_sites, want_vacancy):
                 Nspec=Nspec * sup.size)
 
 
+def fixed_config(ck, name, S, cutoff, maxorder, spectator=(), vac=None, exclude=()):
+    """small supercells in which a supercell lattice vector equals an in-cluster neighbour vector, so that two sites of
+    one cluster image are the same supercell site (clusterevaluator then lists the interaction twice on that site)"""
+    from onsager import cluster, supercell
+    crys, _ = gen.named(name)
+    S = np.array(S, dtype=int)
+    sup = supercell.ClusterSupercell(crys, S, spectator=list(spectator))
+    n = sup.size * sup.Nmobile
+    if vac is not None: sup.addvacancy(vac)
+    ce = cluster.makeclusters(crys, cutoff, maxorder, exclude=list(exclude))
+    clusters = [list(g) for g in ce]
+    desc = dict(kind="self-imaged" if not exclude else "spectator-only", cutoff=cutoff, maxorder=maxorder, exclude=list(exclude))
+    if vac is not None:
+        ci_vac = sup.mobileindices[vac % sup.Nmobile]
+        clusters += [list(g) for g in cluster.makeVacancyClusters(crys, ci_vac[0], ce)]
+    Nspec = sum(len(crys.basis[c]) for c in spectator)
+    return dict(label=name, crys=crys, sup=sup, S=S, spectator=sorted(spectator), vac=vac, clusters=clusters, desc=desc, n=n,
+                Nspec=Nspec * sup.size)
+
+
+FIXED = [("fcc", [[1, 0, 0], [0, 3, 0], [0, 0, 3]], 0.75, 3, (), None),          # FCC 1x3x3, nearest neighbours
+         ("fcc", [[2, 0, 0], [0, 2, 0], [0, 0, 2]], 1.42, 2, (), 3),             # FCC 2x2x2 primitive cells, cutoff >= sqrt(2) a/... with vacancy
+         ("sc", [[1, 0, 0], [0, 2, 0], [0, 0, 3]], 1.01, 3, (), None),
+         ("b2", [[1, 0, 0], [0, 2, 0], [0, 0, 2]], 1.01, 3, (0,), None),
+         ("b2", [[1, 0, 0], [0, 1, 0], [0, 0, 2]], 1.01, 2, (0,), None, (1,)),   # clusters on the spectator sublattice only
+         ("hcp", [[1, 0, 0], [0, 2, 0], [0, 0, 2]], 1.01, 3, (), 2),
+         ("bcc", [[2, 0, 0], [0, 2, 0], [0, 0, 1]], 1.01, 2, (), None)]
+
+
 # ------------------------------------------------------------------------------------------------
 # the brute force of the property text (independent of ClusterSupercell.index)
 class Brute:
@@ -378,7 +407,8 @@ def direct(ck, rng, cfg, br, inst, exhaustive_counter):
         try:
             return fn()
         except Exception as e:  # implementation exception inside the domain
-            ck.violation("%s raised %s: %s" % (name, type(e).__name__, e), dict(rep, evaluator=name), key=key + "-exception")
+            ck.violation("%s raised %s: %s" % (name, type(e).__name__, e), dict(rep, evaluator=name),
+                         key=key if key.endswith("no-mobile-interaction") else key + "-exception")
             return None
     # 2. matrices
     mats = guarded("expandcluster_matrices", lambda: sup.expandcluster_matrices(socc, clusters), "c32-matrices")
@@ -397,6 +427,50 @@ def direct(ck, rng, cfg, br, inst, exhaustive_counter):
         return E
     E = guarded("MonteCarloSampler", samp, "c32-sampler")
     if E is not None: report("Monte Carlo sampler", E, "c32-sampler")
+    # 4b. the same occupations REACHED by update(): a Gray-code walk visits every occupation by single-site updates;
+    #     random multi-site updates (several sites occupied and unoccupied in one call) between random occupations
+    free = [i for i in range(n) if i != cfg["vac"]]
+    # a cluster set without any mobile interaction gives the sampler a siteinteract array of shape (0,): start() then
+    # registers no site at all and update() raises KeyError -- its own class of failing input
+    ukey = "c32-sampler-update" if (ev is None or any(len(l) for l in ev[0])) else "c32-sampler-no-mobile-interaction"
+    def samp_walk():
+        mc = cluster.MonteCarloSampler(sup, socc, clusters, values)
+        mc.start(occs[0].copy())
+        E = np.full(len(occs), np.nan); E[0] = mc.E()
+        idx = 0
+        for g in range(1, len(occs)):
+            b = (g & -g).bit_length() - 1
+            idx ^= (1 << b)
+            if occs[idx, free[b]] == 1: mc.update(occsites=[free[b]])
+            else: mc.update(unoccsites=[free[b]])
+            E[idx] = mc.E()
+        if not np.array_equal(np.asarray(mc.occ), occs[idx]): raise RuntimeError("sampler occupation differs from the updates applied")
+        return E
+    if len(occs) > 1:
+        E = guarded("MonteCarloSampler.update (single-site walk)", samp_walk, ukey)
+        if E is not None: report("Monte Carlo sampler after single-site update()", E, ukey)
+        def samp_multi():
+            mc = cluster.MonteCarloSampler(sup, socc, clusters, values)
+            pairs = [(int(nr.integers(0, len(occs))), int(nr.integers(0, len(occs)))) for _ in range(ck.n(60, 200))]
+            out = []
+            for a_, b_ in pairs:
+                mc.start(occs[a_].copy())
+                on = [i for i in free if occs[a_, i] == 0 and occs[b_, i] == 1]
+                off = [i for i in free if occs[a_, i] == 1 and occs[b_, i] == 0]
+                mc.update(occsites=on, unoccsites=off)
+                out.append((b_, mc.E()))
+            return out
+        res = guarded("MonteCarloSampler.update (multi-site)", samp_multi, ukey) if E is not None else None
+        if res is not None:
+            bad = [(j, e) for j, e in res if not abs(e - Eb[j]) <= tol]
+            if bad:
+                j, e = bad[0]
+                ck.violation("Monte Carlo sampler after a multi-site update() differs from the brute-force sum over clusters by %.3g on %d of %d updates"
+                             % (abs(e - Eb[j]), len(bad), len(res)),
+                             dict(rep, mocc=occs[j].tolist(), E_impl=float(e), E_brute=float(Eb[j]), evaluator="sampler-update"),
+                             key=ukey)
+    if ev is not None:
+        cfg["self_imaged"] = any(len(set(l)) < len(l) for l in ev[0])
     # 1. cluster counter (slow: python loops) -- exhaustive when affordable, else a structured + random subset
     # evalcluster costs ~9 us per cluster image: all occupations when that fits the budget of the tier
     if (exhaustive_counter and len(occs) * len(inst) * 9e-6 <= ck.n(5.0, 60.0)) or len(occs) <= 64:
@@ -484,7 +558,9 @@ def run(ck):
                "integer supercell matrix (|det| <= 12, non-diagonal, negative det) x {makeclusters(cutoff at 1st-3rd shell, "
                "order 2-4, exclusions) [+ makeVacancyClusters] [+ hand-built random clusters], hand-built only} x "
                "{no vacancy, vacancy at a random site}; direct tier: float values, random spectator occupation, ALL 2^n "
-               "mobile occupations; correspondence tier: integer values, all (n<=5) or sampled occupations, compared in Coq. "
+               "mobile occupations, the sampler both right after start() and reached by update() (Gray-code walk of single-site updates "
+               "through all occupations + random multi-site updates); fixed small supercells whose lattice vectors equal in-cluster "
+               "neighbour vectors (self-imaged clusters: FCC 1x3x3, 2x2x2, sc 1x2x3, B2 1x2x2, ...); correspondence tier: integer values, all (n<=5) or sampled occupations, compared in Coq. "
                "One case = one (supercell, clusters, values, spectator occupation); non-trivial = at least one mobile "
                "interaction and two cells or two mobile sites.")
     ck.trusted += ["harness/c32.py (brute force from the property text; site lookup through mobilepos/specpos)",
@@ -501,9 +577,14 @@ def run(ck):
     skipped = {"too-many-sites": 0, "construct-failed": 0}
     nocc_total = ncounter_total = 0
     hist = {}
+    fixed = FIXED if not ck.quick else FIXED[:5]
+    plan = [("fixed", f) for f in fixed] + plan
+    nself = 0
     for k, (nmax, exh) in enumerate(plan):
         cfg = None
-        for _try in range(30):
+        if nmax == "fixed":
+            cfg = fixed_config(ck, *exh); exh = True; nmax = cfg["n"]
+        for _try in range(30 if cfg is None else 0):
             try:
                 cfg = make_config(ck, rng, nmax, want_vacancy=(k % 2 == 1))
             except Exception as e:
@@ -520,6 +601,7 @@ def run(ck):
             nocc_total += nocc; ncounter_total += ncnt
             kind = "n=%d%s-%s" % (cfg["n"], "-vac" if cfg["vac"] is not None else "", cfg["desc"]["kind"])
             hist[cfg["n"]] = hist.get(cfg["n"], 0) + 1
+            nself += bool(cfg.get("self_imaged"))
             ck.case(key=("direct", describe(cfg), values.tolist(), socc.tolist()), nontrivial=(nmob > 0 and cfg["n"] >= 2),
                     kind="direct:" + kind,
                     sample=dict(tier="direct", **{k2: v for k2, v in describe(cfg).items() if k2 != "cluster_list"},
@@ -546,8 +628,9 @@ def run(ck):
     ck.extra["occupations_evaluated"] = nocc_total
     ck.extra["occupations_evaluated_by_counter"] = ncounter_total
     ck.extra["mobile_sites_histogram"] = {str(k): v for k, v in sorted(hist.items())}
+    ck.extra["self_imaged_supercells"] = nself
     ck.extra["coq_cases"] = len(codes)
     ck.extra["traces_validated_against_impl"] = len(codes)
     ck.extra["skipped"] = skipped
-    ck.note("direct: %d occupations (all 2^n of %d supercells; counter on %d); coq cases: %d"
-            % (nocc_total, sum(hist.values()), ncounter_total, len(codes)))
+    ck.note("direct: %d occupations (all 2^n of %d supercells, %d of them with self-imaged clusters; counter on %d; sampler also "
+            "reached by update()); coq cases: %d" % (nocc_total, sum(hist.values()), nself, ncounter_total, len(codes)))
